@@ -305,7 +305,33 @@ def run_regress(rec, seed, shard, nshards, tier):
     prop_meta(F19_CASE, rec)
 
 
+def prop_fuzz_replay(case, rec):
+    if 'fuzz_bytes' not in case:
+        return prop_meta(case, rec) if 'coverage' in case else prop_reader(case, rec)
+    body = bytes.fromhex(case['fuzz_bytes'])
+    path = os.path.join(_dir(), 'fz.txt')
+    with open(path, 'wb') as f:
+        f.write(body)
+    got = guard(case, real_read, path, case['encoding'], case['prefix'])
+    want = reference_read(body, case['encoding'], case['prefix'])
+    if got[0] != want[0] or got[1] != want[1] or got[2] != want[2]:
+        raise Violation('reader_vs_reference', f'real reader {got[0][:4]!r} n={got[1]} err={got[2]}, reference {want[0][:4]!r} n={want[1]} err={want[2]}', case)
+
+
+def run_fuzz(rec, seed, shard, nshards, tier):
+    """atheris (coverage-guided) on the training-file reader, reference reader as the oracle inside the target."""
+    runs = {'quick': 0, 'thorough': 600000}[tier]
+    if not runs:
+        return
+    corpus = None
+    if shard == 1:
+        corpus = [b'\x00password1\npassword1\n$HEX[6162]\n', b'\x01 3 abc\n2 $HEX[c3a9]\n7\n', b'\x02ab\x1ccd\r\nxy\n', b'\x05 2 \xe9t\xe9\n']
+    core.run_atheris(rec, 'c19', runs, seed, corpus=corpus, max_len=128,
+                     dictionary=[b'$HEX[', b']', b'\n', b'\r\n', b' ', b'3 ', b'\t', b'\xe2\x80\xa8', b'\xc2\x85', b'\x1c', b'6162', b'\xff'])
+
+
 PARTS = [
+    Part('atheris_fuzz', run_fuzz, prop_fuzz_replay, {'quick': 0, 'thorough': 2}),
     Part('regression_f19', run_regress, prop_meta, {'quick': 1, 'thorough': 1}),
     Part('reader_vs_reference', run_reader, prop_reader, {'quick': 8, 'thorough': 16}),
     Part('renderings_train_same_ruleset', run_meta, prop_meta, {'quick': 8, 'thorough': 16}),
